@@ -144,9 +144,17 @@ pub async fn run_case(seed: u64, i: u64, out: &mut String) {
     let mute = RawPeer::connect_with(addr, &certs.client("ca.der"), Some((der(&certs.client("localhost.der")), der(&certs.client("localhost.key.der")))), Some(0)).await;
     let mut mute_streams = vec![];
     if let Ok(m) = &mute {
-        for k in 0..2 {
+        for k in 0..4 {
             if let Ok(mut st) = m.open().await {
-                let _ = tokio::time::timeout(Duration::from_millis(500), st.send(frame_of(if k == 0 { "regreq" } else { "regrep" }, &ns, &tp, 0, &mut r))).await;
+                // ... and, third and fourth, for roles that are fine (a subscription to the stalled
+                // topic, one to a topic of its own): their acknowledgement cannot be written either
+                let f = match k {
+                    0 => frame_of("regreq", &ns, &tp, 0, &mut r),
+                    1 => frame_of("regrep", &ns, &tp, 0, &mut r),
+                    2 => frame_of("regsub", &ns, &tp, 0, &mut r),
+                    _ => frame_of("regsub", &ns, &format!("{}-mute", tp), 0, &mut r),
+                };
+                let _ = tokio::time::timeout(Duration::from_millis(500), st.send(f)).await;
                 mute_streams.push(st);
             }
         }
@@ -302,14 +310,14 @@ pub fn main(args: &[String]) {
             for l in text.lines() {
                 let t: Vec<&str> = l.split_whitespace().collect();
                 if t.len() >= 4 && t[0] == "case" && t[1] == "stall" {
-                    run_case(t[2].parse().unwrap(), t[3].parse().unwrap(), &mut out).await;
+                    crate::guard_case!(out, 300, run_case(t[2].parse().unwrap(), t[3].parse().unwrap(), &mut out));
                 }
             }
         } else {
             let seed: u64 = args.get(1).and_then(|s| s.parse().ok()).unwrap_or(1);
             let n: u64 = args.get(2).and_then(|s| s.parse().ok()).unwrap_or(2);
             for i in 0..n {
-                run_case(seed, i, &mut out).await;
+                crate::guard_case!(out, 300, run_case(seed, i, &mut out));
             }
         }
         let _ = std::fs::remove_dir_all(work_dir());
